@@ -91,6 +91,10 @@ fn sid(i: u8) -> SessionId {
 /// assortment of JSON shapes (nested values, unicode, empty and long strings, extreme numbers).
 fn state_for(val: u32) -> HashMap<Cow<'static, str>, Value> {
     let mut m: HashMap<Cow<'static, str>, Value> = HashMap::new();
+    if val == 0 {
+        // the EMPTY state (a session whose last key was removed): all empty states are alike
+        return m;
+    }
     m.insert("#".into(), json!(val));
     match val % 7 {
         0 => {}
@@ -120,6 +124,9 @@ fn state_for(val: u32) -> HashMap<Cow<'static, str>, Value> {
 }
 
 fn marker_of(state: &HashMap<Cow<'static, str>, Value>) -> Option<u32> {
+    if state.is_empty() {
+        return Some(0);
+    }
     let v = state.get("#")?.as_u64()? as u32;
     if &state_for(v) == state { Some(v) } else { None }
 }
@@ -824,12 +831,12 @@ impl Sim for StoreSim {
                         0 => {
                             val += 1;
                             last_ttl = ttl_ms.min(5 * unit);
-                            Op::Create { id, ttl_ms, val }
+                            Op::Create { id, ttl_ms, val: if rng.chance(1, 8) { 0 } else { val } }
                         }
                         1 => {
                             val += 1;
                             last_ttl = ttl_ms.min(5 * unit);
-                            Op::Update { id, ttl_ms, val }
+                            Op::Update { id, ttl_ms, val: if rng.chance(1, 6) { 0 } else { val } }
                         }
                         2 => Op::UpdateTtl { id, ttl_ms },
                         3 => Op::Load { id },
